@@ -41,7 +41,7 @@ def main():
     while i < len(a):
         if a[i] in skip: i += 2
         else: ids.append(a[i]); i += 1
-    if ids == ["all"]: ids = sorted(os.listdir(os.path.join(ROOT, "seeded")))
+    if ids == ["all"]: ids = sorted(d for d in os.listdir(os.path.join(ROOT, "seeded")) if os.path.isdir(os.path.join(ROOT, "seeded", d)))
     jobs = queue.Queue(); results = {}
     for sid in ids:
         meta = json.load(open(os.path.join(ROOT, "seeded", sid, "meta.json")))
